@@ -34,6 +34,14 @@
 (*    "one-below" / "one-above").  The replay writes the image with those  *)
 (*    lengths; HashedLength states the size-sensitive part of the property.*)
 (*                                                                         *)
+(* Scale (mode "image"): the size of the file as text is an Env dimension  *)
+(*    too.  For a file written coarsely (one abstract record per area) Env *)
+(*    may pick the size class "scaled" together with a scale [thr, side,   *)
+(*    rlen, eol]: the replay then gives the areas the lengths that put the *)
+(*    HEX text just below / just above thr characters when every area is   *)
+(*    written in order with data records of rlen bytes and that line end   *)
+(*    (UnitLens.scaled only fixes the proportions).                        *)
+(*                                                                         *)
 (* Invocation shapes (modes "sign" and "auth"): how a tool is invoked is    *)
 (*    part of the environment.  Env picks a setup [size, dirs, form]:      *)
 (*    dirs = how the image files are named and placed                      *)
@@ -69,16 +77,18 @@ CONSTANTS Images,      \* set of images; an image is a set of areas [z, o, d]
           OutPaths,    \* auth mode: 0 = print, n > 0 = the n-th -o path
           MaxSteps,    \* auth mode: invocations in a row
           SizeClasses, \* subset of DOMAIN UnitLens
+          Scales,      \* image mode: set of [thr, side, rlen, eol]
           Setups,      \* sign mode: set of [size, dirs, form]
           AuthSetups,  \* auth mode: set of [size, dirs, form]
           Forms,       \* sequence of [addr, cwd, pub]
           AltForm,     \* form index -> the form of every other invocation
           UnitLens,    \* size class -> sequence: unit id -> real length in bytes
-          Variant      \* "ok" | "reuse" | "leak" | "signpath" | "twopubs" | "fileorder" | "stale" | "tailtwice" | "byname"
+          Variant      \* "ok" | "reuse" | "leak" | "signpath" | "twopubs" | "fileorder" | "stale" | "tailtwice" | "byname" | "readcap"
 
 VARIABLES mode,
           size,        \* the size class Env picked ("none": not yet)
           setup,       \* [dirs, form] Env picked (modes "sign" and "auth")
+          scale,       \* [thr, side, rlen, eol] Env picked with the size class "scaled"
           \* ---- image mode
           img,         \* the image being written
           pending,     \* data records [z, a, d] not yet in the file
@@ -98,7 +108,7 @@ VARIABLES mode,
 ivars == <<img, pending, file, wzone, extra, p, done>>
 svars == <<pc, run, plan, cur, sk, fresh, gens, fs, idx, h, sig, outleak, obs>>
 avars == <<afs, apre, astep, alast, aplan>>
-vars  == <<mode, size, setup, ivars, svars, avars>>
+vars  == <<mode, size, setup, scale, ivars, svars, avars>>
 
 (***************************************************************************)
 (* image mode                                                              *)
@@ -140,7 +150,7 @@ NoStep == [img |-> 0, iter |-> 0, out |-> 0, exit |-> 0, found |-> FALSE, hash |
 AuthIdle == /\ afs = [o \in APaths |-> NoAuth] /\ apre = afs /\ astep = 0 /\ alast = NoStep
             /\ aplan = <<>>
 
-Init == /\ mode \in Modes
+Init == /\ mode \in Modes /\ scale = [thr |-> 0, side |-> "none", rlen |-> 0, eol |-> "none"]
         /\ IF mode = "image" THEN size = "none" /\ setup = NoSetup
            ELSE \E su \in (IF mode = "sign" THEN Setups ELSE AuthSetups) :
                    /\ su.size \in SizeClasses
@@ -167,16 +177,22 @@ SelectZone == /\ mode = "image" /\ ~done
                     /\ IF needed THEN TRUE ELSE extra > 0
                     /\ extra' = IF needed THEN extra ELSE extra - 1
                     /\ wzone' = z /\ Put(Ela(z))
-              /\ UNCHANGED <<mode, size, setup, img, pending, done, svars, avars>>
+              /\ UNCHANGED <<mode, size, setup, scale, img, pending, done, svars, avars>>
 
 WriteData == /\ mode = "image" /\ ~done
              /\ \E r \in pending :
                    /\ r.z = wzone
                    /\ pending' = pending \ {r} /\ Put(Data(r.a, r.d))
-             /\ UNCHANGED <<mode, size, setup, img, wzone, extra, done, svars, avars>>
+             /\ UNCHANGED <<mode, size, setup, scale, img, wzone, extra, done, svars, avars>>
 
+NoScale == [thr |-> 0, side |-> "none", rlen |-> 0, eol |-> "none"]
+\* one abstract data record per area
+Coarse == Cardinality({k \in DOMAIN file : file[k].t = "data"}) = Cardinality(img)
 WriteEof == /\ mode = "image" /\ ~done /\ pending = {}
-            /\ Put(Eof) /\ done' = TRUE /\ size' \in SizeClasses
+            /\ Put(Eof) /\ done' = TRUE
+            /\ \E sz \in SizeClasses \cup (IF Coarse THEN {"scaled"} ELSE {}) :
+                  /\ size' = sz
+                  /\ scale' \in (IF sz = "scaled" THEN Scales ELSE {NoScale})
             /\ UNCHANGED <<mode, setup, img, pending, wzone, extra, svars, avars>>
 
 \* what compute_app_hash feeds to SHA-256 once the file is complete
@@ -188,6 +204,9 @@ TailTwice(as) == IF as = <<>> THEN <<>>
                        THEN Head(as).d \o Head(as).d ELSE Head(as).d) \o TailTwice(Tail(as))
 HashInput == IF Variant = "fileorder" THEN FileOrderInput(file)
              ELSE IF Variant = "tailtwice" THEN TailTwice(PAreas(p))
+             \* "readcap": reading stops at a cap on the text; what lies beyond never reaches the parser
+             ELSE IF Variant = "readcap" /\ scale.side = "above"
+             THEN HashInputOf(SubSeq(file, 1, Len(file) - 2))
              ELSE HashInputP(p)
 
 (***************************************************************************)
@@ -212,14 +231,14 @@ StartRun == /\ mode = "sign" /\ pc \in {"idle", "exited"} /\ run < MaxRuns
             /\ run' = run + 1 /\ pc' = "gen" /\ gens' = <<>> /\ idx' = 1 /\ outleak' = FALSE
             /\ fs' = {[f EXCEPT !.w = FALSE] : f \in (IF run = 0 THEN ImgFiles ELSE fs)}
             /\ obs' = IF pc = "exited" THEN ObserveRun(obs, RunRec) ELSE obs
-            /\ UNCHANGED <<mode, size, setup, avars, ivars, sk, fresh, h, sig>>
+            /\ UNCHANGED <<mode, size, setup, scale, avars, ivars, sk, fresh, h, sig>>
 
 GenKey == /\ mode = "sign" /\ pc = "gen"
           /\ IF Variant = "reuse" /\ sk # 0
              THEN UNCHANGED <<sk, fresh, gens>>          \* a module-level key survives the run
              ELSE sk' = fresh /\ fresh' = fresh + 1 /\ gens' = Append(gens, fresh)
           /\ pc' = "wpub"
-          /\ UNCHANGED <<mode, size, setup, avars, ivars, run, plan, cur, fs, idx, h, sig, outleak, obs>>
+          /\ UNCHANGED <<mode, size, setup, scale, avars, ivars, run, plan, cur, fs, idx, h, sig, outleak, obs>>
 
 WritePub == /\ mode = "sign" /\ pc = "wpub"
             /\ LET f1 == Write(fs, FileRec(cur.pub, "pub", sk, 0, 0, FALSE))
@@ -230,12 +249,12 @@ WritePub == /\ mode = "sign" /\ pc = "wpub"
                          ELSE f1
                IN fs' = f2
             /\ pc' = "hash"
-            /\ UNCHANGED <<mode, size, setup, avars, ivars, run, plan, cur, sk, fresh, gens, idx, h, sig, outleak, obs>>
+            /\ UNCHANGED <<mode, size, setup, scale, avars, ivars, run, plan, cur, sk, fresh, gens, idx, h, sig, outleak, obs>>
 
 \* compute_app_hash(image) -- by HashInputOk (image mode) a function of the content only
 HashI == /\ mode = "sign" /\ pc = "hash"
          /\ h' = Contents[cur.imgs[idx]] /\ pc' = "sign"
-         /\ UNCHANGED <<mode, size, setup, avars, ivars, run, plan, cur, sk, fresh, gens, fs, idx, sig, outleak, obs>>
+         /\ UNCHANGED <<mode, size, setup, scale, avars, ivars, run, plan, cur, sk, fresh, gens, fs, idx, sig, outleak, obs>>
 
 \* "byname": the hashes were put in a table keyed by file name; the last image with a name wins
 LastNamed(n) == LET ks == {k \in DOMAIN cur.imgs : NameOf(cur.imgs[k]) = n}
@@ -246,16 +265,16 @@ SignI == /\ mode = "sign" /\ pc = "sign"
                                        THEN Contents[LastNamed(NameOf(cur.imgs[idx]))]
                                        ELSE h]
          /\ pc' = "wsig"
-         /\ UNCHANGED <<mode, size, setup, avars, ivars, run, plan, cur, sk, fresh, gens, fs, idx, h, outleak, obs>>
+         /\ UNCHANGED <<mode, size, setup, scale, avars, ivars, run, plan, cur, sk, fresh, gens, fs, idx, h, outleak, obs>>
 
 WriteSigI == /\ mode = "sign" /\ pc = "wsig"
              /\ fs' = Write(fs, FileRec(SigPath(cur.imgs[idx]), "sig", 0, sig.by, sig.over, FALSE))
              /\ idx' = idx + 1
              /\ pc' = IF idx = Len(cur.imgs) THEN "exit" ELSE "hash"
-             /\ UNCHANGED <<mode, size, setup, avars, ivars, run, plan, cur, sk, fresh, gens, h, sig, outleak, obs>>
+             /\ UNCHANGED <<mode, size, setup, scale, avars, ivars, run, plan, cur, sk, fresh, gens, h, sig, outleak, obs>>
 
 Exit == /\ mode = "sign" /\ pc = "exit" /\ pc' = "exited"
-        /\ UNCHANGED <<mode, size, setup, avars, ivars, run, plan, cur, sk, fresh, gens, fs, idx, h, sig, outleak, obs>>
+        /\ UNCHANGED <<mode, size, setup, scale, avars, ivars, run, plan, cur, sk, fresh, gens, fs, idx, h, sig, outleak, obs>>
 
 (***************************************************************************)
 (* auth mode                                                               *)
@@ -273,7 +292,7 @@ Message == /\ mode = "auth" /\ astep < MaxSteps
                    /\ aplan' = Append(aplan, [img |-> i, iter |-> it, out |-> o,
                                                 form |-> FormOf(astep + 1)])
            /\ astep' = astep + 1
-           /\ UNCHANGED <<mode, size, setup, ivars, svars, apre>>
+           /\ UNCHANGED <<mode, size, setup, scale, ivars, svars, apre>>
 
 Next == Message \/ SelectZone \/ WriteData \/ WriteEof
         \/ StartRun \/ GenKey \/ WritePub \/ HashI \/ SignI \/ WriteSigI \/ Exit
